@@ -559,7 +559,7 @@ static void run_sq(vf::Ctx& c)
 		int nops = c.rng.range(10, 150);
 		uint64_t shape = 7;
 		for (int i = 0; i < nops; i++) {
-			int w = c.rng.below(12), v = c.rng.range(0, 999);
+			int w = c.rng.below(14), v = c.rng.range(0, 999);
 			shape = vf::mix(shape, w);
 			switch (w) {
 			case 0: case 1: case 2: c.op(vf::fmt("push(%d)", v)); st.push(E<T>::mk(v)); ms.push_back(v); break;
@@ -570,6 +570,9 @@ static void run_sq(vf::Ctx& c)
 			case 7: if (ms.size()) { c.op("stack>>x"); T x = E<T>::mk(0); st >> x; if (E<T>::val(x) != ms.back()) c.fail("stack.extract", ""); ms.pop_back(); } break;
 			case 8: case 9: c.op(vf::fmt("put(%d)", v)); q.put(E<T>::mk(v)); mq.push_back(v); break;
 			case 10: if (mq.size()) { c.op("get()"); T x = q.get(); if (E<T>::val(x) != mq.front()) c.fail("queue.get", vf::fmt("got %d want %d", E<T>::val(x), mq.front())); mq.erase(mq.begin()); } break;
+			// arguments that are elements of the same container (read after a possible reallocation if unprotected)
+			case 12: if (ms.size()) { int k = c.rng.below((uint32_t)ms.size()); c.op(vf::fmt("push(top(%d))", k)); int val = ms[ms.size() - 1 - k]; st.push(st.top(k)); ms.push_back(val); c.count("stack.push-of-own-element"); } break;
+			case 13: if (mq.size()) { int k = c.rng.below((uint32_t)mq.size()); c.op(vf::fmt("put(q[%d])", k)); int val = mq[k]; q.put(q[k]); mq.push_back(val); c.count("queue.put-of-own-element"); } break;
 			case 11: if (mq.size() >= 2) { c.op("queue>>x>>y"); T x = E<T>::mk(0), y = E<T>::mk(0); q >> x >> y; if (E<T>::val(x) != mq[0] || E<T>::val(y) != mq[1]) c.fail("queue.extract", ""); mq.erase(mq.begin(), mq.begin() + 2); } break;
 			}
 			if (Counted::err) c.fail(std::string("counted.") + Counted::err, "stack/queue");
